@@ -431,6 +431,10 @@ func (ec *evalCtx) urlSinkObligation(call *ast.CallExpr, arg *Term) {
 				if tv, ok := ec.info.Types[conv.Fun]; ok && tv.IsType() {
 					if t := ec.info.TypeOf(conv.Args[0]); t != nil && types.TypeString(t, nil) == modulePath+".SafeURL" {
 						typed = true
+						if types.Identical(t, types.Typ[types.String]) || types.AssignableTo(types.Typ[types.String], t) {
+							// an alias of string (or any type a plain string variable is assignable to) gates nothing
+							ec.fc.oblige(ec.st, "sink", False, call.Pos(), "href/action value "+exprText(conv.Args[0])+": templ.SafeURL must be a defined type that a plain string is not assignable to - it is "+types.TypeString(types.Unalias(t), nil))
+						}
 						if why := ec.urlVarGate(conv.Args[0]); why != "" {
 							ec.fc.oblige(ec.st, "sink", False, call.Pos(), "href/action value "+exprText(conv.Args[0])+": "+why)
 						}
